@@ -185,6 +185,28 @@ class TemplatePathSurface(BlockSurface):
             return conds[0](ic.ctx_to_py(x["ctx"]))
         return core.impl_call(run)
 
+    def model(self, rn, x):
+        # "the block that was written" is read the way resolve() reads every literal text of a template (C01, pinned by the suite's
+        # tests/test_resolver.py: "TRUE" / "True" are rendered "true"): a policy value that spells a boolean reaches the evaluator in
+        # lower case.  (False alarm corrected: the surface compared with the block verbatim, so {"ArnNotEquals": {k: ["TRUE"]}} against
+        # the context value "TRUE" was reported -- seen only in runs long enough to draw that case.)  Texts holding an SSM dynamic
+        # reference are outside this surface (their value is the caller's).
+        def rendered(v):
+            if isinstance(v, str):
+                if "{{resolve:" in v:
+                    raise ic.Undefined("dynamic reference")
+                return v.lower() if v.lower() in ("true", "false") else v
+            if isinstance(v, list):
+                return [rendered(z) for z in v]
+            if isinstance(v, dict):
+                return {k: rendered(z) for k, z in v.items()}
+            return v
+        try:
+            y = dict(x, block=rendered(x["block"]))
+        except ic.Undefined:
+            return ("EXC", "EUndefined", "")
+        return super().model(rn, y)
+
     def agree(self, x, i, m):
         if i[0] == "EXC" or m[0] == "EXC":
             return i[0] == m[0] and (i[1] == m[1] or {i[1], m[1]} <= {"EValidation", "EValue"})
